@@ -16,7 +16,7 @@
         transfer leader      : rejected if the target is absent or a learner
    3. exec_step = what one heartbeat round does with the operator's current step. *)
 From Coq Require Import String.
-From PDV Require Import lib.Base.
+From PDV Require Import lib.Base gen.Gen_C08.
 Local Open Scope Z_scope.
 
 Inductive role := Voter | Learner | Incoming | Demoting.
@@ -93,7 +93,8 @@ Definition dv_finished (r : region) (d : Z * Z) : bool :=
 
 (* The identifier that ChangePeerV2Leave.ConfVerChanged hands to GetStorePeer.  The code passes
    dv.PeerID (a peer id) where a store id is expected — S2.  The model mirrors the code. *)
-Definition leave_lookup_key (d : Z * Z) : Z := snd d.
+Definition leave_lookup_key (d : Z * Z) : Z :=
+  if String.eqb Gen_C08.leave_cvc_lookup_arg "dv.ToStore"%string then fst d else snd d.
 
 Definition conf_ver_changed (r : region) (s : step) : Z :=
   match s with
